@@ -1,8 +1,8 @@
-(** C10 — the concurrency limit is respected (and never blocks completion: C04). *)
+(** C10 — the concurrency limit is respected and never blocks completion. *)
 From FG Require Import Dag Builder Sched DagFacts EdgeFacts RankFacts BuilderFacts TopoFacts AugFacts BuildFacts
      SchedInv SchedInv2 SafetyFacts CfgFacts SI_Queuer SI_Step SI2_Step SafetyInv OutcomeFacts.
 From Coq Require Import Permutation.
-From FG Require Import Props.C09.
+From FG Require Import Props.C09 Props.C03 SchedInv3 SI3_Run LiveRun SettleFacts DriveFacts.
 
 (** for_each_concurrent* / try_for_each_concurrent* with limit >= 1, and fold_async* /
     try_fold_async* (limit 1): in every prefix of the trace of every run, the number of user
@@ -23,6 +23,40 @@ Print Assumptions C10_limit_respected.
 Theorem C10_fold_is_sequential : forall cf, is_seq (c_api cf) = true -> eff_limit cf = 1.
 Proof. intros cf H. unfold eff_limit. rewrite H. reflexivity. Qed.
 Print Assumptions C10_fold_is_sequential.
+
+(** Driving a call keeps it among the reachable states. *)
+Lemma drive_reachable cf pick : forall k evs, exists evs', drive pick k cf (run cf evs) = run cf evs'.
+Proof.
+  induction k as [|k IH]; intros evs; cbn [drive].
+  - exists (evs ++ [ESettle]). rewrite run_snoc. reflexivity.
+  - change (settle (settle_fuel cf) cf (run cf evs)) with (step cf (run cf evs) ESettle).
+    rewrite <- run_snoc. destruct (is_none (result (run cf (evs ++ [ESettle])))).
+    + rewrite <- run_snoc. apply IH.
+    + exists (evs ++ [ESettle]). reflexivity.
+Qed.
+
+(** Any limit (0 = unbounded, 1, 2, ... and the implicit 1 of the folds) still lets every graph
+    run to completion: from the state after ANY history, every scheduler that keeps completing
+    in-flight user futures makes the call return; and if no interruption was delivered and no
+    function failed, every function of the graph has then been run. *)
+Theorem C10_limit_never_blocks_completion : forall ops G p q rev a mt ctl lim st incl imm evs pick,
+  build (builder_run ops) = BOk G p q -> fair_pick pick ->
+  let cf := mk_cfg G rev a mt ctl lim st incl imm true in
+  let s := drive pick (c_n cf - length (ends (trace (run cf evs)))) cf (run cf evs) in
+  exists o, result s = Some o /\
+    (w_ian (w s) = false -> failed (trace s) = [] ->
+     Permutation (starts (trace s)) (seq 0 (ncount (builder_run ops)))).
+Proof.
+  intros ops G p q rev a mt ctl lim st incl imm evs pick Hb Hp cf s.
+  pose proof (build_ok_intro ops G p q Hb) as Hok.
+  pose proof (cfg_ok_mk _ _ _ _ rev a mt ctl lim st incl imm true Hok) as Hc. fold cf in Hc.
+  pose proof (eventually_returns_sharp cf evs pick Hc eq_refl Hp) as Hr. fold s in Hr.
+  destruct (drive_reachable cf pick (c_n cf - length (ends (trace (run cf evs)))) evs) as [evs' He].
+  fold s in He. destruct (result s) as [o|] eqn:Hres; [|congruence].
+  exists o. split; [reflexivity|]. intros Hi Hf. rewrite He in Hres, Hi, Hf |- *.
+  exact (C03_exactly_once_clean ops G p q rev a mt ctl lim st incl imm evs' o Hb Hres Hi Hf).
+Qed.
+Print Assumptions C10_limit_never_blocks_completion.
 
 Example C10_example :
   let ops := [AddFn (mkFn 0 [] []); AddFn (mkFn 1 [] []); AddFn (mkFn 2 [] [])] in
